@@ -2,7 +2,7 @@
    correspondence check.  ExtrOcamlBasic only: bool/option/unit/prod/list/sumbool/sumor map to
    the OCaml builtins; N, positive, nat stay the extracted inductive types. *)
 From Coq Require Import Extraction ExtrOcamlBasic.
-From Pocket Require Import Bytes Layout Access MatchSpec Hex Hll Ctor Keys Db ADb Escape JsonParse Codec Crash.
+From Pocket Require Import Bytes Layout Access MatchSpec Hex Hll Ctor Keys Db ADb Escape JsonParse Codec Crash LogBytes.
 Extraction "../runner/model.ml"
   N.of_nat N.to_nat N.add N.mul N.div N.modulo N.eqb N.ltb N.leb N.sub
   len beq
@@ -21,5 +21,6 @@ Extraction "../runner/model.ml"
   json_escape json_unescape next_code_point encode_utf8 event_from_json filter_from_json tags_from_json
   decode_event decode_filter event_bytes_as_json filter_bytes_as_json tags_bytes_as_json canon
   event_as_json filter_as_json tags_as_json
-  crash_states_store crash_states_remove crash_states_vanish recover_create
+  crash_states_store crash_states_remove crash_states_vanish recover_create pre_checks
+  es_open es_store es_get get_end replay_log bytes_of_log crash_files create_files
   read_hex write_hex hll_new add_element merge from_hex to_hex zero_count.
